@@ -92,6 +92,15 @@ func (fr *Frame) baseNames(cur *State) map[string]tval {
 	for k, e := range fr.u.logical {
 		names[k] = tval{t: e.val, ty: e.typ}
 	}
+	if fr.isRoot {
+		for alias, real := range fr.u.paramAlias {
+			if v, ok := names[real]; ok {
+				if _, clash := names[alias]; !clash {
+					names[alias] = v
+				}
+			}
+		}
+	}
 	for k, v := range fr.extraNames {
 		names[k] = v
 	}
